@@ -96,3 +96,41 @@ Proof.
   intro Ht. apply bnd_pipe_wf_from; [|exact Ht].
   induction P as [|o P IH]; constructor; [apply all_ops_ok|exact IH].
 Qed.
+
+(* the last boundary of a pipeline is its output *)
+Lemma krun_id : forall (t : list iev) (m : kmap L_id) live,
+  (forall k, m k <> None <-> In k live) -> allowed_seq live t -> concat (krun item L_id m t) = t.
+Proof.
+  induction t as [|e t IH]; intros m live Hl Hal; [reflexivity|].
+  cbn [allowed_seq] in Hal. destruct Hal as [Ha Hal]. cbn [krun].
+  destruct (kstep_wf item L_id m live e Hl Ha) as (_ & _ & C).
+  assert (Ho : snd (kstep L_id m e) = [e]).
+  { destruct e as [k|k x|k]; cbn [kstep allowed] in *.
+    - reflexivity.
+    - destruct (m k) as [[]|] eqn:Em; [reflexivity|]. exfalso. apply (proj2 (Hl k) Ha). exact Em.
+    - destruct (m k) as [[]|]; reflexivity. }
+  destruct (kstep L_id m e) as [m1 o1]. cbn [fst snd] in *. subst o1. cbn [concat app]. f_equal.
+  apply (IH m1 (after live e) C Hal).
+Qed.
+Lemma flat_run_id (t : list iev) : wf t -> flat_run id_b t = t.
+Proof.
+  intro Ht. unfold flat_run. rewrite run_timed_mrun.
+  rewrite (run_refines0 item _ _ (br item id_b) t Ht). apply (krun_id t _ []); [|exact Ht].
+  intro k. split; [intro H; exfalso; apply H; reflexivity | intros []].
+Qed.
+Theorem bnd_pipe_last : forall (P : list op) (t : list iev), P <> [] -> wf t ->
+  last (bnd_pipe P t) [] = flat_run (den_pipe P) t.
+Proof.
+  induction P as [|o P IH]; intros t Hne Ht; [congruence|].
+  cbn [bnd_pipe]. change (den_pipe (o :: P)) with (compose_b (den o) (den_pipe P)). rewrite flat_run_compose.
+  pose proof (branch_output_wf (den o) t Ht) as [Hw _].
+  destruct P as [|o' P'].
+  - cbn [bnd_pipe]. rewrite app_nil_r, last_last. change (den_pipe []) with id_b. now rewrite flat_run_id.
+  - rewrite app_assoc. rewrite <- (IH (flat_run (den o) t)); [|discriminate|exact Hw].
+    remember (bnd_pipe (o' :: P') (flat_run (den o) t)) as l eqn:El.
+    destruct l as [|x l].
+    + exfalso. cbn [bnd_pipe] in El. destruct (bnd_op o' (flat_run (den o) t)); discriminate.
+    + clear. generalize (bnd_op o t ++ [flat_run (den o) t]). intro pre.
+      induction pre as [|y pre IHp]; [reflexivity|]. cbn [app]. rewrite <- IHp.
+      destruct (pre ++ x :: l) eqn:E; [destruct pre; discriminate|reflexivity].
+Qed.
